@@ -57,7 +57,8 @@ def concretise(cmd: tuple, counter: list) -> tuple[bytes, str]:
         return line, 'uid' if uidmode else 'seq'
     if k == 'fetch':
         _, uidmode, sset, seen = cmd
-        att = b'(UID FLAGS BODY[HEADER.FIELDS (SUBJECT)])' if seen else b'(UID FLAGS)'
+        att = b'(UID FLAGS BODY[HEADER.FIELDS (SUBJECT)])' if seen else (
+            b'(UID FLAGS BODY.PEEK[HEADER.FIELDS (SUBJECT)])' if FETCH_SUBJECT[0] else b'(UID FLAGS)')
         return (b'UID ' if uidmode else b'') + b'FETCH ' + sset.encode() + b' ' + att, \
             'uid' if uidmode else 'seq'
     if k == 'search':
@@ -102,6 +103,9 @@ def concretise(cmd: tuple, counter: list) -> tuple[bytes, str]:
     raise ValueError(cmd)
 
 
+FETCH_SUBJECT = [False]     # C04: every FETCH also asks for the Subject (content identity)
+
+
 class SyncRun:
 
     def __init__(self, *, backend: str = 'dict', init_flags=((), (), ()),
@@ -123,6 +127,7 @@ class SyncRun:
         self._cmd_arrivals: dict = {}
         self._validities: dict = {}
         self._cids: dict = {}
+        self._bound: dict = {}
         self.log_state = False
         w = self.w
         z = w.connect('z')
@@ -347,9 +352,20 @@ class SyncRun:
             elif r.name == b'FETCH':
                 d = r.data
                 flags = d.get(b'FLAGS')
-                ev.append({'e': 'fetch', 's': s, 'n': r.num, 'uid': d.get(b'UID', 0),
-                           'hasflags': flags is not None,
-                           'flags': sorted(f.decode() for f in (flags or []))})
+                fe = {'e': 'fetch', 's': s, 'n': r.num, 'uid': d.get(b'UID', 0),
+                      'hasflags': flags is not None,
+                      'flags': sorted(f.decode() for f in (flags or [])), 'cid': 0, 'bound': '',
+                      'nowobj': ''}
+                subj = [v for k_, v in d.items() if k_.startswith(b'BODY[HEADER.FIELDS')]
+                if subj and self.backend == 'dict':
+                    import re as _re
+                    m = _re.search(rb'Subject: m(\d+)', bytes(getattr(subj[0], 'value', subj[0]) or b''))
+                    if m:
+                        fe['cid'] = int(m.group(1))
+                        fe['bound'] = self._bound.get(s, '')
+                        nm = self.selected_name(s)
+                        fe['nowobj'] = self.obj_of(nm) if nm else ''
+                ev.append(fe)
             elif r.name == b'SEARCH':
                 inf = self.inflight[s]
                 ev.append({'e': 'search', 's': s, 'ids': list(r.data),
@@ -393,6 +409,10 @@ class SyncRun:
             ev.append({'e': 'appenduid', 's': s, 'obj': o,
                        'v': self.validity_idx(int(v)), 'realv': realv,
                        'uids': _expand(us), 'cids': inf.get('cids', [])})
+        if cmd[0] in ('select', 'examine'):
+            self._bound[s] = inf['target'][0] if (cond == 'OK' and inf and inf.get('target')) else ''
+        elif cmd[0] == 'close' or view is None:
+            self._bound[s] = ''
         ev.append({'e': 'tagged', 's': s, 'cond': cond, 'code': code,
                    'codeargs': r.code[1].decode() if r.code else '',
                    'selected': view is not None, 'view': view or [],
